@@ -22,7 +22,7 @@
 (* Counters `trans` (automaton transitions) and `fails` (failure links     *)
 (* followed inside next_state) carry the C19 work bound.                   *)
 (***************************************************************************)
-EXTENDS ACAutomaton, TLC
+EXTENDS ACRun, TLC
 
 CONSTANTS Sigma,      \* model alphabet (set of bytes)
           MaxPats,    \* pattern lists have 1..MaxPats patterns (0 allowed too)
@@ -153,6 +153,12 @@ Correct ==
         IF cfg.early /\ K # "std"
         THEN EarliestOK(cfg.pats, K, H, cfg.s, cfg.e, cfg.ci, cfg.an, res)
         ELSE res = Oracle
+
+(* the step machine computes the function ACRun!FindRun (used by ACIter,    *)
+(* ACReplace, ACStream for the searches they issue)                         *)
+RunAgrees ==
+    (pc = "done" /\ ~PreActive) =>
+        res = FindRun(cfg.pats, K, cfg.ci, H, cfg.s, cfg.e, cfg.an, cfg.early)
 
 (* C14: existence *)
 IsMatchAgrees ==
